@@ -371,6 +371,49 @@ func checkTriggerRestarts(p *load.Program, r *kit.Report, rule string) {
 		}
 	}
 	r.Check(bad == "", rule, key, posOf(p, at), "the flag-only exit lies behind IsComplete() == false", bad)
+
+	// the dual: no second round is started while one is registered (and was not found complete)
+	key2 := "TriggerBlockSynchronize/one-round-at-a-time"
+	var starts []ssa.Instruction
+	var clears []ssa.Instruction
+	kit.AllInstrs(f, func(in ssa.Instruction) {
+		switch x := in.(type) {
+		case ssa.CallInstruction:
+			if strings.HasSuffix(kit.CallID(x), ".InterruptableThread.Start") {
+				starts = append(starts, in)
+			}
+		case *ssa.Store:
+			if fl, _ := kit.FieldOfAddr(x.Addr); fl == thF {
+				if kit.IsNilConst(x.Val) {
+					clears = append(clears, in)
+				} else {
+					starts = append(starts, in)
+				}
+			}
+		}
+	})
+	registered := kit.FindGuards(f, func(c ssa.Value) (bool, bool) {
+		_, pol, ok := isThreadNil(c)
+		return ok, pol
+	})
+	if len(starts) == 0 || len(registered) == 0 {
+		r.Unknown(rule, key2, posOf(p, f.Blocks[0].Instrs[0]), "no thread start (%d) or no test of the registered round (%d) found", len(starts), len(registered))
+		return
+	}
+	var from []kit.Pt
+	for _, e := range edgesOf(registered, true) {
+		from = append(from, kit.EdgeStart(e))
+	}
+	r2 := kit.Reach(f, from, kit.Opts{StopAt: kit.InstrSet(clears...), Assume: map[string]bool{"round-registered": true}, CondKey: isThreadNil, Kill: kill})
+	bad2 := ""
+	at2 := starts[0]
+	for _, st := range starts {
+		if r2.Has(st) {
+			at2 = st
+			bad2 = "a new synchronisation round can be started while another one is registered and was not found complete (" + r2.PathTo(st, p.Pos) + "): two rounds walk back to the same processed block and request the same blocks, so blocks are requested and processed more than once and out of order"
+		}
+	}
+	r.Check(bad2 == "", rule, key2, posOf(p, at2), "a round is started only when none is registered (or the registered one is complete and forgotten)", bad2)
 }
 
 // checkLoadPrunesBeforeLinking (C11; C07 imports it): load shortens every branch to the retained
